@@ -35,7 +35,7 @@ structure DialCfg where
   debug : Bool := false
   logAuthData : Bool := false
   hmacHex : Bytes → Bytes → Bytes := fun _ _ => []
-  scram : ScramEnv := { algorithm := [], user := none, pass := none, cnonce := [], crypto := fun _ _ _ => ([], []) }
+  scram : ScramEnv := { algorithm := [], user := none, pass := none, cnonces := [], crypto := fun _ _ _ => ([], []) }
   send : SendCfg := {}
 
 /-- connection established by the dial function; smtp.NewClient reads the greeting -/
